@@ -17,7 +17,8 @@ LEVEL_TEXT = ("time_to_hexadecimal_timestamp / hexadecimale_timestamp_to_localti
 RULE = ("case = (zone, local date, 'now' time of day, minute set); every minute HH:MM of the set is encoded and decoded; times "
         "that do not exist that day (DST gap) are counted as unspecified and skipped. Additional Hypothesis sub-checks: "
         "arbitrary epochs 0..2^32-1 decode to the zoneinfo wall time; random dates 1971..2105; malformed strings raise. "
-        "Non-trivial = zone != UTC or date within one day of a transition; distinct by (zone, date, minute) / (zone, epoch) / string.")
+        "Non-trivial = zone != UTC or date within one day of a transition; distinct by (zone, date, minute) / (zone, epoch) / string."
+        " 'now' carries a sub-second part in two of three cases; malformed strings include digit separators, signs, inner/trailing blanks, a third digit, non-ASCII digits and a trailing line end.")
 ASSUMPTIONS = [
     "time_machine freezes time.time/localtime/strftime and sets TZ+tzset for ZoneInfo destinations",
     "zoneinfo and glibc read the same system tz database",
